@@ -153,6 +153,21 @@ def childiter_of(k):
     return list
 
 
+def _as_kind(ci, kind):
+    """the same childiter handing its result back as another kind of iterable: the exporter may only iterate over it once and must
+    not test it for truth or length (an iterator/generator is always true, whatever it yields)"""
+    if kind == "iter":
+        return lambda cs: iter(ci(cs))
+    if kind == "tuple":
+        return lambda cs: tuple(ci(cs))
+    if kind == "gen":
+        def g(cs):
+            for c in ci(cs):
+                yield c
+        return g
+    return ci
+
+
 def snapshot(root):
     return tree_canon(root)
 
@@ -169,8 +184,8 @@ def impl(case):
         kw["maxlevel"] = case.get("maxlevel")
     if case.get("attriter", "none") != "none":
         kw["attriter"] = ATTRITER[case["attriter"]]
-    if case.get("childiter", "list") != "list":
-        kw["childiter"] = childiter_of(case["childiter"])
+    if case.get("childiter", "list") != "list" or case.get("ci_kind", "list") != "list":
+        kw["childiter"] = _as_kind(childiter_of(case.get("childiter", "list")), case.get("ci_kind", "list"))
     if case.get("dictcls") == "ordered":
         import collections
         kw["dictcls"] = collections.OrderedDict
